@@ -212,9 +212,11 @@ def coq_list_result(out, marker):
 # Go: overlay build of the harness from /repo's working tree
 # --------------------------------------------------------------------------
 
-def go_overlay(ctx, extra_replace=None):
+def go_overlay(ctx, extra_replace=None, without_optional=False):
     """Build overlay.json mounting the harness main package and white-box shims
-    into /repo without touching it."""
+    into /repo without touching it.  Shim files named zz_verifopt_*.go are OPTIONAL: they export unexported helper functions
+    (twins compared with their Coq models) through function variables; when the source no longer has such a helper the harness is
+    built without them (without_optional) and the behavioural checks still run."""
     ov = {}
     hdir = os.path.join(VERIF, "harness", "cmd", "verifharness")
     for fn in sorted(os.listdir(hdir)):
@@ -227,6 +229,8 @@ def go_overlay(ctx, extra_replace=None):
             continue
         for fn in sorted(os.listdir(pd)):
             if fn.endswith(".go"):
+                if without_optional and fn.startswith("zz_verifopt_"):
+                    continue
                 ov[os.path.join(REPO, "internal", pkg.replace("__", "/"), fn)] = os.path.join(pd, fn)
     if extra_replace:
         ov.update(extra_replace)
@@ -236,12 +240,20 @@ def go_overlay(ctx, extra_replace=None):
 
 
 def go_build_harness(ctx, extra_replace=None, name="h", tags="verif"):
-    ov = go_overlay(ctx, extra_replace)
     out = os.path.join(ctx.scratch, name)
+    ov = go_overlay(ctx, extra_replace)
     rc, log = run(["go", "build", "-tags", tags, "-overlay", ov, "-o", out, "./cmd/verifharness"],
                   cwd=REPO, env=GOENV, timeout=1200)
     if rc != 0:
-        return None, log
+        # a helper that an optional shim exports may be gone (renamed / folded into another function): build without those shims
+        ov = go_overlay(ctx, extra_replace, without_optional=True)
+        rc2, log2 = run(["go", "build", "-tags", tags, "-overlay", ov, "-o", out, "./cmd/verifharness"],
+                        cwd=REPO, env=GOENV, timeout=1200)
+        if rc2 != 0:
+            return None, log
+        ctx.notes.append("harness built without the optional helper shims (zz_verifopt_*.go): " + log[-600:])
+        ctx.optional_shims_dropped = log[-1500:]
+        return out, log2
     return out, log
 
 
